@@ -14,7 +14,7 @@
    locality: what a save does to the tree it is aimed at, and whether it succeeds, is a function of that tree alone --
    the other trees of the file never influence it. *)
 From Coq Require Import Permutation.
-From Emd Require Import Base.Prelude Model.H5 Model.Emd Model.Reader Generated.Tables Proofs.PTree Proofs.PFrame Proofs.PRead Proofs.PMulti Proofs.PLocal Proofs.PMixed Proofs.PUnion Proofs.PUnionAO.
+From Emd Require Import Base.Prelude Model.H5 Model.Emd Model.Reader Generated.Tables Proofs.PTree Proofs.PFrame Proofs.PRead Proofs.PMulti Proofs.PLocal Proofs.PMixed Proofs.PUnion Proofs.PUnionAO Proofs.PAfter.
 From Emd Require Import Model.EmdList.
 
 (* target_root: the tree a save is aimed at = the root's name, or the tree named by emdpath for a foreign root.
@@ -144,6 +144,17 @@ Theorem C10_any_history_of_whole_tree_saves :
     = H5 (forest_file c0 (fold_left happly steps ts)).
 Proof. exact any_history_of_whole_tree_saves. Qed.
 Print Assumptions C10_any_history_of_whole_tree_saves.
+
+(* ... and after any such history every tree of the file is read back by its root name as the tree the history computes *)
+Theorem C10_after_any_history_each_tree_is_read_back_by_its_root_name :
+  forall c c0 steps ts t,
+    ts <> [] -> Forall (fun t => rcls t = CRoot) ts -> NoDup (map rname ts) -> hgood ts steps ->
+    Forall rd_tree ts -> Forall (fun st => rd_tree (hroot st)) steps ->
+    In t (fold_left happly steps ts) -> rname t <> "" -> no_slash (rname t) = true ->
+    exists f, fold_left (fun s st => snd (write_node c s (hroot st) [] (WA (hmode st) (htree st) None))) steps (H5 (forest_file c0 ts)) = H5 f /\
+              read (H5 f) (Some (rname t)) (Some true) = Ok (RTree (canon t) (ret_of (canon t))).
+Proof. exact history_then_read. Qed.
+Print Assumptions C10_after_any_history_each_tree_is_read_back_by_its_root_name.
 
 (* a list of roots and unrooted items saved (append / append-over) into a file that may already hold some of the listed
    roots: the listed trees are handled one after the other, each a new tree, an append or an append-over according to what
